@@ -85,7 +85,7 @@ class C16(Lab):
         "an early-return probe uses a 5 ms real-time grace period: silence proves nothing, an early return is a violation",
         "wait() that has not returned 10 s (real time) after the clock reached the alarm, with the notifier re-woken every 50 ms, is reported as a violation (it can only miss, never invent, a return)",
     )
-    budgets = {"quick": 600, "thorough": 30000}
+    budgets = {"quick": 1000, "thorough": 30000}
     time_budget = {"quick": 80, "thorough": 1500}
 
     def setup(self):
